@@ -228,8 +228,24 @@ impl Scenario for C05 {
                 .map(|id| n.bc.blockring.get_longest_chain_block_hash_at_block_id(id))
                 .collect();
             saito_core::core::util::verif::set_step_budget(8 * (2 * max_height + 4) + 16);
-            let res = n.add_block_bytes(&w.recs[idx].bytes.clone());
+            let bytes = w.recs[idx].bytes.clone();
+            let res = crate::util::guarded(|| n.add_block_bytes(&bytes));
             saito_core::core::util::verif::set_step_budget(u64::MAX);
+            let res = match res {
+                Ok(x) => x,
+                Err(p) => {
+                    if orphan_seen {
+                        // the ledger / index were already disturbed by the orphan branch (known finding); what
+                        // follows, a failing supply check included, is a consequence of it
+                        r.violate("C05|after-orphan-delivery|fork-choice-disturbed", format!("a block was delivered before its parent; then: add_block panicked: {} ({}:{})", p.msg.chars().take(120).collect::<String>(), p.file, p.line));
+                    } else if p.step_budget {
+                        r.violate(format!("C05|does-not-return|{}", p.site()), format!("step {}: add_block exceeded its step budget", step));
+                    } else {
+                        r.violate(format!("C05|panic|{}", p.site()), format!("{} at {}:{}", p.msg, p.file, p.line));
+                    }
+                    break;
+                }
+            };
             let oc = res.as_ref().map(outcome_of);
             trace.u64(step as u64).str(&format!("{:?}", oc));
             r.steps += 1;
